@@ -126,6 +126,34 @@ func (s *Sess) ChunkedPut(b, key string, payload []byte, sizes []int, sched []in
 	return r
 }
 
+// ChunkedPutStream: the same with a hand-made stream (payload = what the stream really carries, for the model's spec clause)
+func (s *Sess) ChunkedPutStream(b, key string, stream, payload []byte, sched []int, eofWith bool, declared int) Resp {
+	fr := &fragReader{data: append([]byte{}, stream...), sched: append([]int{}, sched...), eofWith: eofWith}
+	r := do(s.h, Req{Method: "PUT", Path: "/" + b + "/" + key, Reader: fr, Header: [][2]string{
+		{"Content-Length", strconv.Itoa(len(stream))},
+		{"X-Amz-Content-Sha256", "STREAMING-AWS4-HMAC-SHA256-PAYLOAD"},
+		{"X-Amz-Decoded-Content-Length", strconv.Itoa(declared)}}})
+	s.emitOp("cput", []string{hs(b), hs(key), hx(stream), schedField(sched), boolField(eofWith), strconv.Itoa(declared), hx(payload)}, obsT{r: r})
+	return r
+}
+
+// ChunkedPutFailing: a chunked upload whose transport fails (not EOF) after k bytes of the stream. It
+// must be refused for every k short of the whole stream; nothing is recorded for the model, so
+// the reads that follow check that the stored state is unchanged
+func (s *Sess) ChunkedPutFailing(b, key string, payload []byte, sizes []int, k int) {
+	stream := encodeChunks(splitChunks(payload, sizes))
+	r := do(s.h, Req{Method: "PUT", Path: "/" + b + "/" + key, Reader: &failReader{data: stream, k: k}, Header: [][2]string{
+		{"Content-Length", strconv.Itoa(len(stream))},
+		{"X-Amz-Content-Sha256", "STREAMING-AWS4-HMAC-SHA256-PAYLOAD"},
+		{"X-Amz-Decoded-Content-Length", strconv.Itoa(len(payload))}}})
+	if r.Status >= 200 && r.Status < 300 && k < len(stream) {
+		emit(s.prop, "BAD", hs(fmt.Sprintf("aws-chunked upload whose transport failed after %d of %d bytes was accepted (%d)", k, len(stream), r.Status)))
+	} else {
+		emit(s.prop, "GOOD", hs("failing chunked upload refused"))
+	}
+	stat("chunked-transport-failure")
+}
+
 func runC12(tier string, seed uint64) {
 	rng := NewRng(seed)
 	lens := []int{0, 1, 2, 15, 16, 17, 100, 600, 4095, 4096, 4097}
@@ -187,9 +215,13 @@ func runC12(tier string, seed uint64) {
 		payload := []byte("hello chunked world, this is a payload")
 		good := encodeChunks(splitChunks(payload, []int{10}))
 		var bad [][]byte
-		for cut := 0; cut < len(good); cut += 7 {
-			bad = append(bad, good[:cut])
+		for cut := 0; cut < len(good); cut++ {
+			bad = append(bad, good[:cut]) // every cut point, the ones inside a header or a signature line included
 		}
+		bad = append(bad, append(append([]byte{}, good...), []byte("garbage that is not a chunk")...),
+			append(append([]byte{}, good...), []byte("\r\n")...), append(append([]byte{}, good...), []byte("5")...),
+			append(append([]byte{}, good...), []byte("5;")...), append(append([]byte{}, good...), good...),
+			append(encodeChunks([][]byte{payload[:10]}), encodeChunks([][]byte{payload[10:]})...))
 		bad = append(bad, []byte("zz;"+chunkSig+"\r\nhello\r\n0;"+chunkSig+"\r\n\r\n"),
 			[]byte("5"+chunkSig+"\r\nhello\r\n"), []byte("5;short\r\nhello\r\n0;x\r\n\r\n"), []byte(";"+chunkSig+"\r\n"),
 			bytes.Replace(good, []byte("a;"), []byte("9;"), 1), bytes.Replace(good, []byte("a;"), []byte("b;"), 1))
@@ -238,8 +270,30 @@ func runC12(tier string, seed uint64) {
 		}
 		put("obj", []byte("x"), []int{1}, nil, false, -1)
 		s.Get(b, "obj", "")
+		// a zero-length chunk is not the end of the stream unless the transport ends there: data after it
+		// counts (so the declared length 5 is wrong), and anything that is not a chunk after it is malformed
+		mid := append(append(encodeChunks([][]byte{[]byte("hello")}), encodeChunks([][]byte{[]byte(" world")})...))
+		s.ChunkedPutStream(b, "obj", mid, []byte("hello world"), nil, false, 5)
+		s.Get(b, "obj", "")
+		s.ChunkedPutStream(b, "obj", mid, []byte("hello world"), []int{3}, true, 5)
+		s.Get(b, "obj", "")
+		good := encodeChunks(splitChunks([]byte("trailing garbage follows"), []int{9}))
+		s.ChunkedPutStream(b, "obj", append(append([]byte{}, good...), []byte("garbage that is not a chunk")...), []byte("trailing garbage follows"), nil, false, 24)
+		s.Get(b, "obj", "")
+		// transport failure at every point of the stream, the closing chunk and its signature line included
+		pl := []byte("payload of a chunked upload that breaks off")
+		st := encodeChunks(splitChunks(pl, []int{16}))
+		for k := 0; k < len(st); k += 1 + len(st)/40 {
+			s.ChunkedPutFailing(b, "obj", pl, []int{16}, k)
+		}
+		for k := len(st) - 90; k < len(st); k += 3 {
+			if k >= 0 {
+				s.ChunkedPutFailing(b, "obj", pl, []int{16}, k)
+			}
+		}
+		s.Get(b, "obj", "")
 		s.end()
 	}
 	sample("decoder driven directly: payloads of 0,1,2,15..17,100,600,4095..4097,32767..32769,65539 bytes; chunk-size patterns {1},{2,3},{16},{100,1,7},{4096},{70000},{65536,1},{10^6}; transport read schedules: uncapped, 1 byte at a time, halves, seeded random, 1000-byte reads, mixed; EOF with and without data; consumers ReadAll(exact/short/long size) and copy loops with buffers 1,2,7,512,32768")
-	sample("PUT with STREAMING-AWS4-HMAC-SHA256-PAYLOAD on all six backends with the same fragmentations, GET after each, declared decoded length off by one and negative")
+	sample("PUT with STREAMING-AWS4-HMAC-SHA256-PAYLOAD on all six backends with the same fragmentations, GET after each, declared decoded length off by one and negative; data and garbage after a zero-length chunk; transport failures at every point of the stream incl. the closing chunk")
 }
